@@ -37,8 +37,11 @@ type caseSpec struct {
 	Removals       [][]string
 	ParentReplaced string
 	Situations     map[string]bool
-	wantsTrees     bool
-	specialSeen    bool
+	// Stragglers, if set, are output files whose writer is still around
+	// when the runner returns (virtual back end, clean runs only).
+	Stragglers  *stragglerPlan
+	wantsTrees  bool
+	specialSeen bool
 }
 
 var pathNames = []string{"a", "b", "c", "out", "x"}
@@ -416,6 +419,7 @@ func (cs *caseSpec) describe() map[string]any {
 		"input_root": cs.InputRoot.Describe(), "expected_before_run": cs.PreRun.Describe(),
 		"produced_hierarchy": truncate(cs.Final.Describe(), 4000), "shape": cs.Shape,
 		"removed_by_action": fmt.Sprint(cs.Removals), "parent_replaced": cs.ParentReplaced,
+		"stragglers": cs.Stragglers.describe(),
 	}
 }
 
